@@ -92,6 +92,23 @@ def decoder_table(fx, dec):
                     continue
                 break
             if call is None:
+                # the same written out: `match getter(..) { Ok(x) => Some(x), Err(_) => None }`, a value bound to a local first
+                from rules.common import leaf_defs
+                for leaf in leaf_defs(fc, v0):
+                    cur = leaf
+                    for _ in range(5):
+                        if cur[0] == "adt" and cur[2] in ("Some", "Ok") and cur[3]:
+                            cur = E.strip_casts(cur[3][0])
+                        elif cur[0] == "call" and cur[1].split("::")[-1] in GETTERS:
+                            call = cur
+                            break
+                        elif cur[0] == "call" and (E.is_call(cur, "Try::branch") or cur[1].split("::")[-1] in ("unwrap_or_default", "unwrap_or", "ok", "flatten", "unwrap_or_else")) and cur[2]:
+                            cur = E.strip_casts(cur[2][0])
+                        else:
+                            break
+                    if call is not None:
+                        break
+            if call is None:
                 continue
             pid = E.strip_casts(call[2][1]) if len(call[2]) > 1 else ("rv", "?")
             dflt = show_default(call[2][2], fc.mir) if len(call[2]) > 2 else None
